@@ -28,6 +28,7 @@ CheckEnc(e) ==
   ELSE IF e.dec2err # "" THEN "unmarshal-error-on-other-byte-order"
   ELSE IF ~Same(e.dec2, e.g) THEN "decode-differs-on-other-byte-order"
   ELSE IF ~e.reenc THEN "re-encode-differs"
+  ELSE IF ~e.stable THEN "result-overwritten-by-a-later-call"
   ELSE IF ~e.append THEN "appendwkb"
   ELSE IF ~e.trail THEN "trailing-bytes"
   ELSE IF ~e.value THEN "value"
